@@ -681,6 +681,17 @@ func (e *Engine) evalSpecBoolLoop(s *State, f *Frame, x *specExpr, lp *loop, inc
 		}
 	}
 	env.entryEnv = sub
+	// the names of this loop's own header phis win over like-named phis of other loops (every
+	// compiler-generated range loop has a phi called rangeindex)
+	for _, in := range lp.header.Instrs {
+		p, ok := in.(*ssa.Phi)
+		if !ok {
+			break
+		}
+		if v, ok := f.regs[p]; ok && p.Comment != "" {
+			env.vars[p.Comment] = specVal{v, p.Type()}
+		}
+	}
 	r := e.evalSpec(env, x.ast)
 	if len(r.v) != 1 || r.v[0].S != SBool {
 		e.fail("loop invariant %q is not boolean", x.text)
